@@ -24,7 +24,8 @@ MANIFEST = {
             ' One colour sent in one script to a plain light, a zone and '
             'matrix cells must arrive as the same four integers (tie valu'
             'es in all unit modes); the same clauses are repeated word fo'
-            'r word on a second matrix light of another size.',
+            'r word on a second matrix light of another size.'
+            ' 12 % of the matrix lights have 65-128 cells.',
     'note': 'Trusted: reference overlay model, simulated devices; '
             'set_zone_color(start,end) = [start,end). Ranges stay inside the '
             'device and ordered (the statement says nothing else).',
